@@ -10,6 +10,8 @@ import numpy as np
 
 from mc import alphabets as A
 from mc.harness import Result, Sub
+from mc.ref import c03x as X3
+from mc.ref import c04x as X
 from mc.ref.base import mk_snaps
 from mc.ref.c04c13 import (choose_ref, default_qset_ref, expected_columns, group_mean_interval, group_norms,
                            numofq_ref, sq_loops)
@@ -26,10 +28,18 @@ ASSUMPTIONS = [
     "returned q column = |q| rounded to 6 decimals, rows sorted by q",
     "sum rule tolerance = 0.5e-6 * (N + (sum_a sqrt(N_a))^2) + 1e-9 (worst case of the documented per-vector rounding)",
     "saveqvectors is only used together with an outputfile ending in '.csv' (the file name is derived from it)",
+    "scale slice: one fixed deterministic point set per (size, dimension, box, frame); the reference is a vectorised Fourier sum; "
+    "|q| clusters closer than 1e-5 units of the 6th decimal to a rounding boundary are screened (none in the fixed lists)",
+    "explicit wave vectors are given as an integer ndarray (int64 or int32), C- or Fortran-ordered positions",
+    "call sequences: results must not depend on earlier calls or on other live sq objects; 'fresh state' = library modules "
+    "re-imported in a forked child",
 ]
 
-BOX = {3: {"sqr": [8.0, 8.0, 10.0], "uneq": [7.0, 9.0, 11.0], "cube": [6.0, 6.0, 6.0]},
-       2: {"sqr": [8.0, 8.0], "uneq": [7.0, 9.0], "cube": [6.0, 6.0]}}
+# slices whose unchanged-tree behaviour violates the property and is not yet repaired (none at present)
+KNOWN_OPEN = []
+
+BOX = {3: {"sqr": [8.0, 8.0, 10.0], "uneq": [7.0, 9.0, 11.0], "cube": [6.0, 6.0, 6.0], "xlong": [11.0, 7.0, 9.0]},
+       2: {"sqr": [8.0, 8.0], "uneq": [7.0, 9.0], "cube": [6.0, 6.0], "xlong": [9.0, 7.0]}}  # xlong: the longest edge (which fixes numofq) is x
 
 QL3 = {
     "six": [[1, 0, 0], [0, 1, 0], [-1, 0, 0], [1, 1, 0], [2, 0, 1], [0, 0, 3]],
@@ -133,7 +143,7 @@ def gen_explicit(tier, seed):
 def gen_default(tier, seed):
     for d in (3, 2):
         ops = [False, True, "x", "y"] + (["z"] if d == 3 else [])
-        for box in ("sqr", "uneq", "cube"):
+        for box in ("sqr", "uneq", "cube", "xlong"):
             L = BOX[d][box]
             pts = generic(seed, 6, L, f"sqD{d}{box}")
             for qrange in (2.0, 3.0, 5.0):
@@ -176,6 +186,245 @@ def gen_csv(tier, seed):
                             yield dict(base, mode="default", qrange=2.0, onlypositive=False)
 
 
+# ----------------------------------------------------------------------------------- slice E: scale
+SCALE_N = {"quick": [65, 257, 600], "thorough": [64, 65, 130, 257, 600]}
+SCALE_NQ = {"quick": [64, 65, 129, 257], "thorough": [63, 64, 65, 128, 129, 257]}
+SCALE_BOX = {3: {"sqr": [8.0, 8.0, 10.0], "uneq": [7.0, 9.0, 11.0]}, 2: {"sqr": [8.0, 8.0], "uneq": [7.0, 9.0]}}
+# default sets with more than 256 vectors: 3D numofq = 16 (279 vectors, half-range 8), 2D numofq = 261 (components up to 130)
+SCALE_DEFAULT = [
+    {"d": 3, "box": "uneq", "L": [7.0, 9.0, 11.0], "qrange": 4.6, "ops": [False, True, "z"]},
+    {"d": 3, "box": "sqr", "L": [8.0, 8.0, 10.0], "qrange": 5.1, "ops": [False, "x"]},
+    {"d": 2, "box": "wide", "L": [40.0, 30.0], "qrange": 20.5, "ops": [False, True, "y"]},
+]
+
+
+def gen_scale(tier, seed):
+    quick = tier == "quick"
+    for d in (3, 2):
+        for bi, (box, L) in enumerate(SCALE_BOX[d].items()):
+            for iN, n in enumerate(SCALE_N[tier]):
+                for K in (1, 2, 3, 4, 5):
+                    for F in (1, 3):
+                        for iq, nq in enumerate(SCALE_NQ[tier]):
+                            j = bi + iN + K + F // 2 + iq + d
+                            if quick and j % 2:
+                                continue  # quick: a checkerboard half of the product (every value of every factor still meets every K)
+                            yield {"slice": "scale", "d": d, "box": box, "L": L, "n": n, "K": K, "F": F, "mode": "explicit", "nq": nq,
+                                   "comp": "single" if (iN + K + iq) % 2 == 0 else "skew", "order": "F" if j % 4 == 1 else "C",
+                                   "qdtype": "int32" if (K + iq) % 3 == 0 else "int64",
+                                   "csv": (K + iq + bi) % 4 == 0, "saveqvectors": (K + iN) % 2 == 0, "seed": seed}
+    for dflt in SCALE_DEFAULT:
+        for iN, n in enumerate([257, 600] if quick else SCALE_N[tier]):
+            for K in (1, 2, 3, 4, 5):
+                for io, op in enumerate(dflt["ops"]):
+                    F = 3 if (iN + K + io) % 2 else 1
+                    if quick and (K + io + iN) % 2:
+                        continue
+                    yield {"slice": "scale", "d": dflt["d"], "box": dflt["box"], "L": dflt["L"], "n": n, "K": K, "F": F, "mode": "default",
+                           "qrange": dflt["qrange"], "onlypositive": op, "comp": "single" if (K + io) % 2 else "skew",
+                           "order": "C", "csv": (K + io) % 3 == 0, "saveqvectors": True, "seed": seed}
+
+
+def scale_expand(case):
+    """positions / species of a scale case (kept out of the case so that replays stay small): one point set per frame, the
+    species attached to the ids rotate from frame to frame (same composition)"""
+    n, K, F, L = case["n"], case["K"], case["F"], case["L"]
+    t0 = X3.composition(n, K, case["comp"])
+    out = dict(case)
+    out["types"] = t0
+    out["frames"] = [X.box_points(case["seed"], n, L, tag=f"c04s{case['d']}{case['box']}_{n}_{f}_") for f in range(F)]
+    if F > 1 and K > 1:
+        out["types_frames"] = [np.roll(np.array(t0), 17 * f).tolist() for f in range(F)]
+    if case["mode"] == "explicit":
+        out["q"] = X.shell_vectors(case["d"], case["nq"])
+        out["qlist"] = f"shell{case['nq']}"
+    return out
+
+
+# --------------------------------------------------------------------------- slice F: call sequences
+SEQ_MODS = ("PyMatterSim.utils.wavevector", "PyMatterSim.static.sq")
+# letters share some derived quantities (numofq = int(qrange * Lmax / pi), dimension, box) and differ in others
+SEQ_LETTERS = [
+    {"id": "a", "d": 3, "L": [8.0, 8.0, 10.0], "qrange": 2.0, "op": False, "K": 2},   # numofq 6
+    {"id": "b", "d": 3, "L": [8.0, 8.0, 10.0], "qrange": 2.0, "op": True, "K": 2},    # same, non-negative components only
+    {"id": "c", "d": 3, "L": [8.0, 8.0, 10.0], "qrange": 2.0, "op": "x", "K": 2},     # same, along x
+    {"id": "d", "d": 3, "L": [10.0, 7.0, 9.0], "qrange": 2.0, "op": False, "K": 2},   # same numofq, other box (x is the longest edge)
+    {"id": "e", "d": 3, "L": [8.0, 8.0, 10.0], "qrange": 3.0, "op": False, "K": 3},   # other qrange (numofq 9), three species
+    {"id": "f", "d": 2, "L": [8.0, 10.0], "qrange": 2.0, "op": False, "K": 2},        # numofq 6 in 2D
+    {"id": "g", "d": 2, "L": [10.0, 8.0], "qrange": 2.0, "op": True, "K": 1},
+    {"id": "i", "d": 2, "L": [10.0, 8.0], "defaults": True, "qrange": 10.0, "op": False, "K": 2},    # sq(snapshots): documented defaults qrange = 10, all vectors
+    {"id": "h", "d": 3, "L": [8.0, 8.0, 10.0], "qvector": "six", "K": 2},             # explicit list
+]
+SEQ_MODES = ["serial", "reuse", "ahead"]
+SEQ_NP = 6
+
+
+def seq_input(seed, lt):
+    pts = generic(seed, SEQ_NP, lt["L"], f"sqQ{lt['id']}")
+    return [pts], [1 + (i % lt["K"]) for i in range(SEQ_NP)]
+
+
+def seq_qint(lt):
+    if "qvector" in lt:
+        return qlist(lt["qvector"], lt["d"])
+    return [list(v) for v in default_qset_ref(lt["L"], lt["qrange"], lt["op"])]
+
+
+def gen_sequence(tier, seed):
+    depth = 2 if tier == "quick" else 3
+    for n in range(1, depth + 1):
+        for word in itertools.product(range(len(SEQ_LETTERS)), repeat=n):
+            for mode in SEQ_MODES:
+                if n == 1 and mode != "serial":
+                    continue
+                if mode == "reuse" and len(set(word)) == n:
+                    continue  # without a repeated letter 'reuse' is 'serial'
+                yield {"slice": "sequence", "word": list(word), "mode": mode, "seed": seed}
+
+
+def _seq_eval(case):
+    """runs in the child: the calls of the word in order; the objects stay alive until the end of the word"""
+    from PyMatterSim.static.sq import sq
+
+    def make(k):
+        lt = SEQ_LETTERS[k]
+        frames, types = seq_input(case["seed"], lt)
+        snaps = mk_snaps([np.array(f, float) for f in frames], np.diag(lt["L"]), np.array(types))
+        if "qvector" in lt:
+            return sq(snaps, qvector=np.array(seq_qint(lt), dtype=int))
+        if lt.get("defaults"):
+            return sq(snaps)
+        return sq(snaps, qrange=lt["qrange"], onlypositive=lt["op"])
+
+    def answer(o):
+        res = X3.frame_to_json(o.getresults())
+        res["qset"] = np.asarray(o.df_qvector.values).astype(int).tolist()
+        return res
+
+    word, mode = case["word"], case["mode"]
+    out, alive = [], []
+    if mode == "serial":
+        for k in word:
+            alive.append(make(k))
+            out.append(answer(alive[-1]))
+    elif mode == "reuse":
+        objs = {}
+        for k in word:
+            if k not in objs:
+                objs[k] = make(k)
+            out.append(answer(objs[k]))
+    else:
+        alive = [make(k) for k in word]
+        out = [answer(o) for o in alive]
+    return out
+
+
+_FRESH = {}
+
+
+def run_sequence(case):
+    import pandas as pd
+
+    R = Result()
+    seed = case["seed"]
+    feat = {"slice": "sequence", "mode": case["mode"]}
+    names = [SEQ_LETTERS[k]["id"] for k in case["word"]]
+    payload = X3.fresh_child(_seq_eval, case, SEQ_MODS)
+    if "err" in payload:
+        R.fail(f"call sequence {names} ({case['mode']}) raised {payload['err']}", sig=dict(feat, exception=True))
+        return R
+    states = set()
+    for pos, (k, got) in enumerate(zip(case["word"], payload["ok"])):
+        lt = SEQ_LETTERS[k]
+        key = (seed, k)
+        if key not in _FRESH:
+            frames, types = seq_input(seed, lt)
+            qint = seq_qint(lt)
+            ref, qn = sq_loops(frames, lt["L"], types, qint)
+            one = X3.fresh_child(_seq_eval, {"word": [k], "mode": "serial", "seed": seed}, SEQ_MODS)
+            _FRESH[key] = (ref, group_norms(qn, 6), types, qint, one.get("ok", [None])[0])
+        ref, groups, types, qint, fresh = _FRESH[key]
+        sig = dict(feat, K=lt["K"], d=lt["d"], position="first" if pos == 0 else "later", kind="explicit" if "qvector" in lt else str(lt["op"]))
+        n0 = len(R.viol)
+        if sorted(map(tuple, got["qset"])) != sorted(map(tuple, qint)):
+            R.fail(f"sq letter '{lt['id']}' after {names[:pos]} ({case['mode']}): wave-vector set has {len(got['qset'])} vectors, documented set {len(qint)}",
+                   sig=dict(sig, clause="default_qset"), exp=len(qint), obs=len(got["qset"]))
+        elif groups is not None:
+            res = pd.DataFrame(got["values"], columns=got["columns"])
+            compare(R, res, expected_columns(types, "Sq"), groups, ref, types, sig)
+        if fresh is not None and (got["columns"] != fresh["columns"] or got["qset"] != fresh["qset"]
+                                  or not np.array_equal(np.array(got["values"]), np.array(fresh["values"]), equal_nan=True)):
+            R.fail(f"sq letter '{lt['id']}' after {names[:pos]} ({case['mode']}) differs from the same call made first in a fresh state",
+                   sig=dict(sig, clause="history"))
+        if len(R.viol) > n0:
+            break
+        states.add((k, X3_digest(got)))
+    R.elem = sum(len(g["values"]) * len(g["columns"]) for g in payload["ok"])
+    R.states = len(states)
+    R.transitions = len(case["word"])
+    R.outcome([g["values"] for g in payload["ok"]], nd=6)
+    return R
+
+
+def X3_digest(obj):
+    import hashlib
+    import json
+
+    return hashlib.sha1(json.dumps(obj, sort_keys=True).encode()).hexdigest()[:16]
+
+
+# choosewavevector itself: one case = a first call; the child walks ALL continuations up to the depth, re-importing the module
+# before every word, so every word starts from the import state and its calls share the module state
+CW_LETTERS = [(d, n, op) for d in (2, 3) for n in (4, 5, 6) for op in (False, True, "x", "y")]
+
+
+def gen_choose_sequence(tier, seed):
+    for k in range(len(CW_LETTERS)):
+        yield {"first": k, "depth": 2 if tier == "quick" else 3}
+
+
+def _cw_eval(case):
+    import sys
+
+    exp = {k: choose_ref(*CW_LETTERS[k]) for k in range(len(CW_LETTERS))}
+    bad, nwords, ncalls, seen = [], 0, 0, set()
+    for n in range(1, case["depth"] + 1):
+        for tail in itertools.product(range(len(CW_LETTERS)), repeat=n - 1):
+            word = (case["first"],) + tail
+            X3.reimport_library(("PyMatterSim.utils.wavevector",))
+            f = sys.modules["PyMatterSim.utils.wavevector"].choosewavevector
+            nwords += 1
+            for pos, k in enumerate(word):
+                got = np.asarray(f(*CW_LETTERS[k]))
+                ncalls += 1
+                g = sorted(tuple(int(x) for x in v) for v in got.tolist()) if got.ndim == 2 else None
+                seen.add((k, len(g) if g is not None else -1))
+                if g != exp[k] or not (got.size == 0 or np.issubdtype(got.dtype, np.integer)):
+                    if len(bad) < 5:
+                        bad.append({"word": [list(map(str, CW_LETTERS[j])) for j in word], "pos": pos, "got": len(g) if g is not None else -1, "exp": len(exp[k])})
+                    break
+    return {"bad": bad, "words": nwords, "calls": ncalls, "states": len(seen), "first": [list(v) for v in exp[case["first"]]] if not bad else None}
+
+
+def run_choose_sequence(case):
+    R = Result()
+    payload = X3.fresh_child(_cw_eval, case, ("PyMatterSim.utils.wavevector",))
+    feat = {"slice": "choose_sequence"}
+    if "err" in payload:
+        R.fail(f"choosewavevector call sequences starting with {CW_LETTERS[case['first']]} raised {payload['err']}", sig=dict(feat, exception=True))
+        return R
+    ok = payload["ok"]
+    for b in ok["bad"]:
+        R.fail(f"choosewavevector call #{b['pos'] + 1} of the sequence {b['word']} returned {b['got']} vectors, documented set has {b['exp']}",
+               sig=dict(feat, clause="set", position="first" if b["pos"] == 0 else "later"), exp=b["exp"], obs=b["got"])
+    R.elem = ok["calls"]
+    R.states = ok["states"]
+    R.transitions = ok["calls"]
+    R.outcome([ok["words"], ok["calls"], len(ok["bad"]), ok["first"]])
+    R.nontrivial = ok["words"] > 1
+    return R
+
+
 # ------------------------------------------------------------------------------------- oracle
 OUTFILES = ("sq_out.csv", "sq_out_qvectors.csv")
 
@@ -200,6 +449,9 @@ def _run(case):
     from PyMatterSim.static.sq import sq
 
     R = Result()
+    scale = case["slice"] == "scale"
+    if scale:
+        case = scale_expand(case)
     d = case["d"]
     L = [float(x) for x in case["L"]]
     types = [int(t) for t in case["types"]]
@@ -208,6 +460,8 @@ def _run(case):
     N = len(types)
     F = len(frames)
     sig = {"slice": case["slice"], "K": K, "d": d, "box": case["box"], "F": F, "mode": case["mode"]}
+    if scale:
+        sig.update(n=N, nq=case.get("nq", "default"))
     if case["mode"] == "explicit":
         qint = [list(v) for v in case["q"]]
     else:
@@ -219,20 +473,26 @@ def _run(case):
     tsrc = case.get("types_frames") or types
     if case.get("types_frames"):
         sig["types_vary"] = True
-    ref, qn = sq_loops(frames, L, tsrc, qint)
-    groups = group_norms(qn, 6)
+    if scale:
+        ref, qn = X.sq_vec(frames, L, case.get("types_frames") or [types] * F, qint)
+        groups = X.group_norms_x(qn, 6)
+    else:
+        ref, qn = sq_loops(frames, L, tsrc, qint)
+        groups = group_norms(qn, 6)
     if groups is None:
         return R.screen()
     cols = expected_columns(types, "Sq")
 
-    snaps = mk_snaps([np.array(f, float) for f in frames], np.diag(L), [np.array(t) for t in tsrc] if case.get("types_frames") else np.array(types))
+    order = case.get("order", "C")
+    snaps = mk_snaps([np.asfortranarray(np.array(f, float)) if order == "F" else np.array(f, float) for f in frames], np.diag(L),
+                     [np.array(t) for t in tsrc] if case.get("types_frames") else np.array(types))
     before = [s.positions.copy() for s in snaps.snapshots]
     out = "sq_out.csv" if case["csv"] else None
     kw = {"outputfile": out}
     if case["csv"]:
         kw["saveqvectors"] = bool(case["saveqvectors"])
     if case["mode"] == "explicit":
-        qarr = np.array(qint, dtype=int)
+        qarr = np.array(qint, dtype=case.get("qdtype", "int64"))
         q0 = qarr.copy()
         obj = sq(snaps, qvector=qarr, **kw)
     else:
@@ -246,43 +506,9 @@ def _run(case):
                    sig=dict(sig, clause="default_qset"), sub="C04.default_qset", exp=len(exp), obs=len(got))
     res = obj.getresults()
     R.elem = len(cols) * len(groups)
-
-    if sorted(res.columns) != sorted(["q"] + cols) or res.columns[0] != "q":
-        R.fail(f"columns {list(res.columns)} != {['q'] + cols}", sig=dict(sig, clause="columns"), sub="C04.columns",
-               exp=["q"] + cols, obs=list(res.columns))
+    if not compare(R, res, cols, groups, ref, types, sig):
         return R
     keys = np.array([k for k, _ in groups])
-    if len(res) != len(groups) or not np.allclose(res["q"].values, keys, rtol=0, atol=1e-9):
-        R.fail(f"|q| groups differ: got {len(res)} rows {res['q'].values[:6].tolist()}, expected {len(groups)} rows {keys[:6].tolist()}",
-               sig=dict(sig, clause="grouping"), sub="C04.grouping", exp=keys[:20], obs=res["q"].values[:20])
-        return R
-    for c in cols:
-        lo, hi = group_mean_interval(ref[c], groups, 6)
-        v = res[c].values.astype(float)
-        bad = (v < lo - 1e-12) | (v > hi + 1e-12) | ~np.isfinite(v)
-        if bad.any():
-            k = int(np.argmax(bad))
-            R.fail(f"column {c} at q={keys[k]:.6f} ({len(groups[k][1])} vectors): got {v[k]!r}, reference in [{lo[k]!r}, {hi[k]!r}]",
-                   sig=dict(sig, clause="column", col=c), exp=[lo[k], hi[k]], obs=v[k])
-    # consequences stated in the property, on the implementation's own output
-    if 1 < K <= 5:
-        tl = sorted(set(types))
-        Na = {t: types.count(t) for t in tl}
-        tot = np.zeros(len(res))
-        for c in cols[1:]:
-            a, b = int(c[2]), int(c[3])
-            tot += (Na[a] if a == b else 2.0 * np.sqrt(Na[a] * Na[b])) * res[c].values
-        tol = 0.5e-6 * (N + sum(np.sqrt(Na[t]) for t in tl) ** 2) + 1e-9
-        dev = np.abs(tot - N * res["Sq"].values)
-        if (dev > tol).any():
-            k = int(np.argmax(dev))
-            R.fail(f"sum rule N S = sum N_a S_aa + 2 sum sqrt(N_a N_b) S_ab violated by {dev[k]:.3g} at q={keys[k]:.6f}",
-                   sig=dict(sig, clause="sumrule"), sub="C04.sumrule", exp=N * res["Sq"].values[k], obs=tot[k])
-        for c in cols[1:]:
-            if c[2] == c[3] and (res[c].values < -1e-9).any():
-                R.fail(f"diagonal term {c} negative", sig=dict(sig, clause="diag_nonneg"), sub="C04.diag_nonneg")
-    if (res["Sq"].values < -1e-9).any():
-        R.fail("total S(q) negative", sig=dict(sig, clause="diag_nonneg"), sub="C04.diag_nonneg")
     for s, b in zip(snaps.snapshots, before):
         if not np.array_equal(s.positions, b):
             R.fail("snapshot positions modified", sig=dict(sig, clause="input_modified"))
@@ -330,6 +556,52 @@ def _run(case):
     return R
 
 
+def compare(R, res, cols, groups, ref, types, sig):
+    """column names, |q| rows, every row of every column against the rounded-interval reference, and the consequences stated
+    in the property (sum rule, non-negative diagonal terms) on the implementation's own output.  False if the table has the
+    wrong shape (nothing else can be compared then)."""
+    K = len(set(types))
+    N = len(types)
+    if sorted(res.columns) != sorted(["q"] + cols) or res.columns[0] != "q":
+        R.fail(f"columns {list(res.columns)} != {['q'] + cols}", sig=dict(sig, clause="columns"), sub="C04.columns",
+               exp=["q"] + cols, obs=list(res.columns))
+        return False
+    keys = np.array([k for k, _ in groups])
+    if len(res) != len(groups) or not np.allclose(res["q"].values, keys, rtol=0, atol=1e-9):
+        R.fail(f"|q| groups differ: got {len(res)} rows {res['q'].values[:6].tolist()}, expected {len(groups)} rows {keys[:6].tolist()}",
+               sig=dict(sig, clause="grouping"), sub="C04.grouping", exp=keys[:20], obs=res["q"].values[:20])
+        return False
+    for c in cols:
+        lo, hi = group_mean_interval(ref[c], groups, 6)
+        v = res[c].values.astype(float)
+        bad = (v < lo - 1e-12) | (v > hi + 1e-12) | ~np.isfinite(v)
+        if bad.any():
+            k = int(np.argmax(bad))
+            R.fail(f"column {c} at q={keys[k]:.6f} ({len(groups[k][1])} vectors): got {v[k]!r}, reference in [{lo[k]!r}, {hi[k]!r}]"
+                   f" ({int(bad.sum())} of {len(v)} rows differ)",
+                   sig=dict(sig, clause="column", col=c), exp=[lo[k], hi[k]], obs=v[k])
+    # consequences stated in the property, on the implementation's own output
+    if 1 < K <= 5:
+        tl = sorted(set(types))
+        Na = {t: types.count(t) for t in tl}
+        tot = np.zeros(len(res))
+        for c in cols[1:]:
+            a, b = int(c[2]), int(c[3])
+            tot += (Na[a] if a == b else 2.0 * np.sqrt(Na[a] * Na[b])) * res[c].values
+        tol = 0.5e-6 * (N + sum(np.sqrt(Na[t]) for t in tl) ** 2) + 1e-9
+        dev = np.abs(tot - N * res["Sq"].values)
+        if (dev > tol).any():
+            k = int(np.argmax(dev))
+            R.fail(f"sum rule N S = sum N_a S_aa + 2 sum sqrt(N_a N_b) S_ab violated by {dev[k]:.3g} at q={keys[k]:.6f}",
+                   sig=dict(sig, clause="sumrule"), sub="C04.sumrule", exp=N * res["Sq"].values[k], obs=tot[k])
+        for c in cols[1:]:
+            if c[2] == c[3] and (res[c].values < -1e-9).any():
+                R.fail(f"diagonal term {c} negative", sig=dict(sig, clause="diag_nonneg"), sub="C04.diag_nonneg")
+    if (res["Sq"].values < -1e-9).any():
+        R.fail("total S(q) negative", sig=dict(sig, clause="diag_nonneg"), sub="C04.diag_nonneg")
+    return True
+
+
 def run_choose(case):
     from PyMatterSim.utils.wavevector import choosewavevector
 
@@ -373,7 +645,7 @@ def subs(tier, seed):
                  "(symmetric triple, full first shell, single vector, duplicate vector, Pythagorean shell, negative components)",
             bounds={"qlists": len(QL3), "frames": [1, 2, 3]}),
         Sub("C04.default_qset", gen_default, run,
-            rule="qrange {2,3,5} x boxes {Lx=Ly, unequal, cubic} x {2D,3D} x onlypositive {False,True,'x','y','z'(3D)} x "
+            rule="qrange {2,3,5} x boxes {Lx=Ly, unequal (z longest), cubic, unequal (x longest)} x {2D,3D} x onlypositive {False,True,'x','y','z'(3D)} x "
                  "compositions x frames; the set used (df_qvector) must equal the independent enumeration and the returned frame "
                  "must equal the reference evaluated on the independently enumerated set",
             bounds={"qrange": [2, 3, 5]}),
@@ -384,4 +656,25 @@ def subs(tier, seed):
         Sub("C04.csv", gen_csv, run,
             rule="K=1..6 x {2D,3D} x boxes x frames {1,2} x saveqvectors {False,True} x {explicit list, default set}: output file "
                  "parsed back and compared at %.6f; per-vector file (q0.., q, S columns) compared with the per-vector reference"),
+        Sub("C04.scale", gen_scale, run,
+            rule="SIZE slice (enumerates sizes, one fixed value pattern per size): N in " + str(SCALE_N[tier]) + " generic particles x K = 1..5 "
+                 "species (unequal counts, every second pattern with a ONE-member species) x {2D,3D} x {Lx=Ly, unequal edges} x frames {1,3} "
+                 "(positions and the species attached to the ids change per frame) x explicit wave-vector lists = the first nq integer vectors "
+                 "by shell, nq in " + str(SCALE_NQ[tier]) + (" (checkerboard half of the product)" if tier == "quick" else "")
+                 + "; plus the default set for ranges that give > 256 vectors (3D numofq 16: 279 vectors; 2D numofq 261: components up to 130) "
+                 "with onlypositive False/True/axis; int32/int64 lists, C/Fortran-ordered positions, output files; EVERY |q| row of EVERY "
+                 "column against a vectorised density-mode sum (rounded-interval oracle), grouping, sum rule, files",
+            bounds={"N": SCALE_N[tier], "nq": SCALE_NQ[tier], "K": [1, 5], "frames": [1, 3]}),
+        Sub("C04.sequence", gen_sequence, run_sequence,
+            rule="explicit-state search over CALL SEQUENCES of sq: all words of length <= " + ("2" if tier == "quick" else "3") + f" over {len(SEQ_LETTERS)} "
+                 "letters (dimension, box, qrange, onlypositive / explicit list, composition; several share numofq) in three modes (new object per "
+                 "call / one object per letter called again / all objects constructed before the first evaluation); every word runs in ONE "
+                 "forked child whose library modules were re-imported; every call must use the documented wave-vector set, equal the loop "
+                 "reference and, bit for bit, the same call made first in a fresh state",
+            bounds={"depth": 2 if tier == "quick" else 3, "letters": len(SEQ_LETTERS), "modes": SEQ_MODES}),
+        Sub("C04.choose_sequence", gen_choose_sequence, run_choose_sequence,
+            rule="call sequences of choosewavevector: one case per first call (d in {2,3} x numofq in {4,5,6} x onlypositive in "
+                 "{False,True,'x','y'} = 24 letters); the child walks every word of length <= " + ("2" if tier == "quick" else "3")
+                 + " starting with it, re-importing the module before each word; every call of every word must return the documented set",
+            bounds={"letters": len(CW_LETTERS), "depth": 2 if tier == "quick" else 3}),
     ]
